@@ -66,15 +66,24 @@ FIRST = {
     "C10-I": "missed by C10 (scheduler heap); C14 see final.txt",
     "C10-J": "missed by C10 (no request of more than 255 segments there); caught by C05 (long segmented requests)",
     "C04-G": "missed by C04 (fewer than 256 requests per stack); caught by C11 (more than 256 sequential requests)",
+    # round 6 (C04 C11: I J; C05 C10 C12 C13: K L)
+    "C04-I": "missed (no request was submitted from inside a completion callback) -> IOCB rig op 'chained', chain shapes with single and double faults",
+    "C04-J": "missed (every request of C04 could be sent) -> TSM.tla SubmitRefused / LocalRefusals, refused requests leave nothing (NoResidue)",
+    "C11-I": "missed by C11 (route-aware addresses are not used by the transaction rigs); caught by C18 (routed spellings that differ in the station)",
+    "C11-J": "missed -> chained requests with a further request while the chained one is unanswered (ReplyMatches)",
+    "C05-K": "missed (a delayed frame could not overtake: per-direction FIFO at one instant) -> TSM.tla stragglers (late frames are reordered), straggler order",
+    "C05-L": "missed (segment count was read off the client's state machine, refusals looked like 1-segment runs) -> trace input 'feasible', RefusedThoughFeasible",
+    "C10-K": "missed (segmented requests were garbage-role: no reply demanded) -> role 'last' (LastOK judged by TLC on the octets), I-Am between the segments on a caching device",
+    "C10-L": "missed by C10; caught by C19 (Coherent, NewestWins)",
 }
 rows = []
 for d in sorted(os.listdir(os.path.join(HERE, "seeded"))):
-    m = re.match(r"^(C\d\d)-([C-J])$", d)
+    m = re.match(r"^(C\d\d)-([C-L])$", d)
     if not m:
         continue
     p = os.path.join(HERE, "seeded", d)
     notes = open(os.path.join(p, "notes.txt")).read().strip().split("\n")
-    what = re.sub(r"^(C\d\d )?[Vv]ariant [A-J]\s*[-:]+\s*", "", notes[0]).strip()[:170]
+    what = re.sub(r"^(C\d\d )?[Vv]ariant [A-L]\s*[-:]+\s*", "", notes[0]).strip()[:170]
     fin = open(os.path.join(p, "final.txt")).read().strip().split("\n") if os.path.exists(os.path.join(p, "final.txt")) else []
     res = []
     for line in fin:
